@@ -442,6 +442,7 @@ pub fn run(cfg: &Cfg) -> Outcome {
     for a in accs {
         acc.merge(a);
     }
+    let tz_cov = crate::props::tzshape::run(crate::props::tzshape::Which::C02, cfg.quick(), &mut acc);
     let n_full = items.iter().filter(|i| i.full).count();
     let nt = acc.get("nontrivial_ctx_exprs");
     acc.add("distinct_nontrivial", nt);
@@ -454,6 +455,7 @@ pub fn run(cfg: &Cfg) -> Outcome {
     if capped > 0 {
         o.caps_hit.push(format!("{capped} (expression, context, block) combinations had more derived start instants than the cap or the schedule_at budget allows: the earliest/latest or an evenly spread sub-list was explored for them; the exhaustive streams (whole window / whole block) are not capped"));
     }
+    o.cov("time_zone_contexts", tz_cov);
     o.cov("family_size", json!(items.len()));
     o.cov("full_window_expressions", json!(n_full));
     o.cov("rule", json!("iterator as a transition system: for every expression × context, streams iter_from/iter_range are compared interval by interval with the pointwise oracle P (real schedule_at over every day of the window, run-length merged). Full-window mode (1899-12-30..10000-01-02, all 2 958 466 days): iter_from(DATE_START) and iter_from(DATE_START−1d) consumed to exhaustion, 40 intervals from every derived start (P boundaries in W_core × {−1min,−1s,0,+1s}, capped earliest/latest; year starts/ends; DATE_END±), iter_range on all ordered pairs of 24 instants around 4 boundaries. Block mode: the same on the three W_core blocks with P restricted to the block. states = iterator positions, transitions = next() calls compared, validated = complete streams equal to P; non-trivial = (expr, ctx) whose P has more than one run. Thorough tier: the quick family is explored at thorough depth (W_core blocks, larger start caps, all pairs, larger budgets); the expressions only the thorough family adds (E1 with two selector kinds, every 5th E2, every 37th E3, the larger shortcut family K) at the quick tier's depth"));
@@ -462,6 +464,9 @@ pub fn run(cfg: &Cfg) -> Outcome {
 }
 
 pub fn replay(cfg: &Cfg, case: &Value) -> Vec<Violation> {
+    if crate::props::tzshape::is_case(case) {
+        return crate::props::tzshape::replay(crate::props::tzshape::Which::C02, case);
+    }
     let mut acc = Acc::new();
     let Some(text) = case.get("expr").and_then(|v| v.as_str()) else { return vec![] };
     let c = ctx::by_name(&cfg.repo, case.get("ctx").and_then(|v| v.as_str()).unwrap_or("empty"));
